@@ -178,7 +178,14 @@ def check(ctx, prop):
     # layer C: first against the repaired design, then against the pinned-tree shape (named deviations switched on)
     conf = {"shape": None, "reached": 0, "total": len(rows), "first_rejection": None}
     for shape in sorted(SHAPE_FLAGS):
-        reached, total, _ = layers.conform(ctx, DIR, "Trace_Store.tla", "Trace_Store.cfg", rows, name="conf-" + shape, cfg_text=trace_cfg(mode, shape), timeout=1800)
+        try:
+            reached, total, _ = layers.conform(ctx, DIR, "Trace_Store.tla", "Trace_Store.cfg", rows, name="conf-" + shape, cfg_text=trace_cfg(mode, shape), timeout=1800)
+        except Broken as ex:
+            # TLC could not evaluate a recorded value against the model (a shape the model does not know): that is a
+            # rejection of the trace, never a reason to lose layer O's verdict
+            ctx.log("layer C could not evaluate the trace: %s" % str(ex)[-600:].replace("\n", " | "))
+            reached, total = 0, len(rows)
+            conf["evaluation_error"] = str(ex)[-400:]
         if reached == total:
             conf.update(shape=shape, reached=reached)
             break
@@ -340,7 +347,10 @@ def self_test(ctx, mode, runs, c):
         raise Broken("binding self-test: observation layer did not flag a corrupted observation (%s)" % want)
     rejected = False
     for shape in sorted(SHAPE_FLAGS):
-        reached, total, _ = layers.conform(ctx, DIR, "Trace_Store.tla", "Trace_Store.cfg", badc, name="selfC-" + shape, cfg_text=trace_cfg(mode, shape))
+        try:
+            reached, total, _ = layers.conform(ctx, DIR, "Trace_Store.tla", "Trace_Store.cfg", badc, name="selfC-" + shape, cfg_text=trace_cfg(mode, shape))
+        except Broken:
+            reached, total = 0, 1  # an evaluation error on the corrupted trace is a rejection too
         rejected = reached < total
         if not rejected:
             break
